@@ -160,7 +160,9 @@ impl<D> DominanceChecker for SchedDominance<D> where D: DominanceChecker {
         sched::yield_point(yk::DOM);
         let c = ctx();
         let n = c.dom_checks.fetch_add(1, Ordering::Relaxed);
+        let dbg = if sched::trace_on() { Some(state.clone()) } else { None };
         let r = self.inner.is_dominated_or_insert(state, depth, value);
+        if let Some(st) = dbg { eprintln!("[dom] check depth={} value={} -> dominated={} thr={:?} state={:?}", depth, value, r.dominated, r.threshold, crate::wrap::DebugAny(&*st)); }
         if r.dominated {
             if self.weaken_per_mille > 0 && (mix(self.seed, n as u64) % 1000) < self.weaken_per_mille as u64 {
                 c.dom_weakened.fetch_add(1, Ordering::Relaxed);
@@ -177,7 +179,11 @@ impl<D> DominanceChecker for SchedDominance<D> where D: DominanceChecker {
 // Fringe
 // ---------------------------------------------------------------------------
 #[derive(Debug, Clone, Default, Serialize, Deserialize)]
-pub struct FringeStats { pub pushes: usize, pub pops: usize, pub clears: usize, pub coalesced: usize, pub coalesced_diff_ub: usize, pub max_len: usize }
+pub struct FringeStats { pub pushes: usize, pub pops: usize, pub clears: usize, pub coalesced: usize, pub coalesced_diff_ub: usize, pub max_len: usize,
+    /// pushes of a sub-problem that had already been popped (same state, depth and path): a cut-set that makes no progress (signature of finding D5)
+    #[serde(default)] pub repush_of_popped: usize }
+/// same counter, readable from the fatal hook of the scheduler
+pub static REPUSH_OF_POPPED: AtomicUsize = AtomicUsize::new(0);
 
 /// Runs a reference multiset next to the real fringe and compares every operation (C11 in situ).
 /// `dedup`: the wrapped fringe is allowed to coalesce entries that denote the same sub-problem (state, depth).
@@ -189,9 +195,10 @@ pub struct CheckedFringe<F: Fringe> where F::State: Clone {
     pub errors: Vec<String>,
     /// max number of pops before the run is declared non-terminating (C01/C15 step bound); 0 = unbounded
     pub pop_bound: usize,
+    popped: Vec<(F::State, usize, Vec<ddo::Decision>)>,
 }
 impl<F: Fringe> CheckedFringe<F> where F::State: Clone + Eq + Debug {
-    pub fn new(inner: F, dedup: bool) -> Self { CheckedFringe { inner, dedup, reference: vec![], stats: Default::default(), errors: vec![], pop_bound: 0 } }
+    pub fn new(inner: F, dedup: bool) -> Self { CheckedFringe { inner, dedup, reference: vec![], stats: Default::default(), errors: vec![], pop_bound: 0, popped: vec![] } }
     fn err(&mut self, e: String) { if self.errors.len() < 5 { self.errors.push(e); } }
     fn check_len(&mut self, op: &str) {
         if self.inner.len() != self.reference.len() {
@@ -208,6 +215,7 @@ impl<F: Fringe> Fringe for CheckedFringe<F> where F::State: Clone + Eq + Debug {
     fn push(&mut self, node: SubProblem<F::State>) {
         self.stats.pushes += 1;
         if sched::trace_on() { eprintln!("[fringe] {:?} push state={:?} depth={} value={} ub={}", sched::current_tid(), node.state, node.depth, node.value, node.ub); }
+        if self.popped.len() <= 4096 && self.popped.iter().any(|(s, d, p)| *d == node.depth && *s == *node.state && *p == node.path) { self.stats.repush_of_popped += 1; REPUSH_OF_POPPED.fetch_add(1, Ordering::SeqCst); }
         let existing = if self.dedup { self.reference.iter().position(|x| same_sub(x, &node)) } else { None };
         match existing {
             Some(i) => {
@@ -232,6 +240,7 @@ impl<F: Fringe> Fringe for CheckedFringe<F> where F::State: Clone + Eq + Debug {
         match &got {
             None => { if !self.reference.is_empty() { let e = format!("pop() returned None but the reference holds {} items", self.reference.len()); self.err(e); } }
             Some(n) => {
+                if self.popped.len() < 4096 { self.popped.push((n.state.as_ref().clone(), n.depth, n.path.clone())); }
                 let best = self.reference.iter().map(|x| (x.ub, x.value)).max();
                 // the popped item must exist in the reference. For a dedup fringe, value/path/ub are dictated by the coalescing rule.
                 let pos = self.reference.iter().position(|x| same_sub(x, n) && x.value == n.value && x.ub == n.ub && x.path == n.path);
@@ -256,3 +265,9 @@ impl<F: Fringe> Fringe for CheckedFringe<F> where F::State: Clone + Eq + Debug {
     fn clear(&mut self) { if sched::trace_on() { eprintln!("[fringe] {:?} clear", sched::current_tid()); } self.stats.clears += 1; self.reference.clear(); self.inner.clear(); self.check_len("clear"); }
     fn len(&self) -> usize { self.inner.len() }
 }
+
+pub struct DebugAny<'a, T>(pub &'a T);
+impl<'a, T> std::fmt::Debug for DebugAny<'a, T> { fn fmt(&self, f: &mut std::fmt::Formatter<'_>) -> std::fmt::Result {
+    // best effort: print raw bytes of small states (only used for tracing)
+    let p = self.0 as *const T as *const u8; let n = std::mem::size_of::<T>().min(16);
+    let b: Vec<u8> = (0..n).map(|i| unsafe { *p.add(i) }).collect(); write!(f, "{:?}", b) } }
